@@ -1,9 +1,9 @@
 (* C14 extraction: ExtrOcamlBasic only; N / Z / positive stay Coq's binary datatypes. *)
 From Coq Require Import NArith ZArith List.
-From ZV.Mem Require Import Cwksp Estimate DBuffers.
+From ZV.Mem Require Import Cwksp Estimate DBuffers History LevelDefs.
 Require Import ExtrOcamlBasic.
 Extraction "Extract/out/c14model.ml"
-  N.add N.mul N.div_eucl N.eqb Z.opp Z.of_N
+  N.add N.sub N.mul N.div_eucl N.eqb Z.opp Z.of_N
   Cwksp.init Cwksp.run Cwksp.allocFailed Cwksp.cwksp_used Cwksp.cwksp_sizeof
   Estimate.getCParams_internal Estimate.adjustCParams_internal
   Estimate.estimateCCtxSize Estimate.estimateCStreamSize
@@ -15,5 +15,7 @@ Extraction "Extract/out/c14model.ml"
   Estimate.resetCCtx_ops Estimate.static_objects Estimate.heap_objects Estimate.cdict_ops
   Estimate.resolveRowMatchFinderMode Estimate.resolveEnableLdm Estimate.ldm_adjustParameters
   Estimate.estimate_internal Estimate.makeCCtxParamsFromCParams
+  LevelDefs.need_simple LevelDefs.need_compress2 LevelDefs.need_stream
+  History.static_history_hops History.static_history History.history History.history_final
   DBuffers.decodingBufferSize_internal DBuffers.estimateDStreamSize DBuffers.estimateDDictSize
   DBuffers.dstream_load_header DBuffers.dstate0 DBuffers.frame_windowSize.
